@@ -75,6 +75,14 @@ func runOne(ctx context.Context, d solverDef, query string) SolveResult {
 	cmd.Stderr = &out
 	_ = cmd.Run()
 	text := out.String()
+	// warnings precede the verdict
+	for strings.HasPrefix(text, "WARNING") {
+		i := strings.Index(text, "\n")
+		if i < 0 {
+			break
+		}
+		text = text[i+1:]
+	}
 	first := strings.TrimSpace(strings.SplitN(text, "\n", 2)[0])
 	r := SolveResult{Solver: d.name, Output: text, Verdict: "unknown"}
 	if strings.HasPrefix(first, "(error") {
@@ -96,13 +104,27 @@ func (s *Solvers) Run(query string, cover bool) SolveResult {
 	ctx, cancel := context.WithTimeout(context.Background(), s.Timeout+2*time.Second)
 	defer cancel()
 	defs := s.defs()
+	// exact query: non-linear products as multiplication
+	q := strings.ReplaceAll(strings.ReplaceAll(query, "@NLMULR@", "*"), "@NLMULI@", "*")
+	nl := strings.Contains(query, "@NLMUL") && !cover
+	if nl {
+		// extra portfolio member: products of two non-literals as an uninterpreted function. Valid there implies
+		// valid here (only "unsat" is accepted from it).
+		defs = append(defs, solverDef{"z3-5.1.0/uf-mul", defs[0].argv})
+	}
 	ch := make(chan SolveResult, len(defs))
-	q := query
 	for _, d := range defs {
 		go func(d solverDef) {
 			qq := q
-			if strings.HasPrefix(d.name, "cvc5") {
-				qq = strings.Replace(qq, "(set-logic ALL)", "(set-logic ALL)", 1)
+			if strings.HasSuffix(d.name, "/uf-mul") {
+				qq = strings.ReplaceAll(strings.ReplaceAll(query, "@NLMULR@", "umul.R"), "@NLMULI@", "umul.I")
+				qq = strings.Replace(qq, "(set-logic ALL)\n", "(set-logic ALL)\n(declare-fun umul.R (Real Real) Real)\n(declare-fun umul.I (Int Int) Int)\n", 1)
+				r := runOne(ctx, d, qq)
+				if r.Verdict != "unsat" {
+					r.Verdict = "unknown"
+				}
+				ch <- r
+				return
 			}
 			ch <- runOne(ctx, d, qq)
 		}(d)
@@ -212,4 +234,9 @@ func parseValues(text string) map[string]string {
 		}
 	}
 	return m
+}
+
+// ExactQuery renders the query text with non-linear products as multiplication.
+func ExactQuery(q string) string {
+	return strings.ReplaceAll(strings.ReplaceAll(q, "@NLMULR@", "*"), "@NLMULI@", "*")
 }
